@@ -267,11 +267,15 @@ func (c *Ctx) revisionAdoptionGate() {
 	// the fresh object: result of the uncached Get in this function
 	var fresh *ast.Ident
 	nRead := 0
-	for _, s := range c.G.Sites {
-		if s.Fn == fi.Obj && s.Class == "read" && s.Resource == "statefulsets.pingcap" && s.Verb == "Get" {
+	for _, s := range c.sitesOf(fi) {
+		if s.Class == "read" && s.Resource == "statefulsets.pingcap" && s.Verb == "Get" {
 			nRead++
-			if as, ok := stmtOf(fi.Decl.Body, s.Call).(*ast.AssignStmt); ok && len(as.Lhs) == 2 {
-				fresh, _ = as.Lhs[0].(*ast.Ident)
+			k := 0
+			if s.Helper != nil {
+				k = c.resultIndexOf(s.Helper, s.Call, 0)
+			}
+			if as, ok := stmtOf(fi.Decl.Body, s.Top).(*ast.AssignStmt); ok && k >= 0 && k < len(as.Lhs) && len(as.Rhs) == 1 {
+				fresh, _ = as.Lhs[k].(*ast.Ident)
 			}
 		}
 	}
